@@ -1129,7 +1129,7 @@ func c8FailVariants(base *C8Case, id int, sel bool) []*C8Case {
 		if sel && len(args) > 1 {
 			v = args[1]
 		}
-		c := &C8Case{Pipe: clonePipe(base.Pipe), Term: cloneTerm(base.Term), Note: fmt.Sprintf("closure %d fails at decisive call %+d", id, off)}
+		c := &C8Case{Pipe: clonePipe(base.Pipe), Term: cloneTerm(base.Term), Note: fmt.Sprintf("a closure fails at its decisive call %+d", off)}
 		if c.setFail(id, v, sel) {
 			out = append(out, c)
 		}
